@@ -13,6 +13,7 @@ Events are recorded in the vocabulary of spec/FakeTrx.tla."""
 import contextlib
 import io
 import logging
+import os
 import re
 import sys
 
@@ -109,9 +110,9 @@ class _Capture(logging.Handler):
     def emit(self, record):
         if record.levelno >= logging.WARNING:
             try:
-                self.records.append((record.levelno, record.getMessage()))
+                self.records.append((record.levelno, record.getMessage(), os.path.basename(record.pathname or "")))
             except Exception:
-                self.records.append((record.levelno, str(record.msg)))
+                self.records.append((record.levelno, str(record.msg), os.path.basename(record.pathname or "")))
 
 
 _STALE = re.compile(r"^\((.+?)\) Stale TRXD message \(fn=(\d+)\): (.*)$")
@@ -143,6 +144,9 @@ class Sim:
         finally:
             sys.argv = old
         self.trx = list(self.app.trx_list.trx_list)
+        self.shadow = [dict(ver=0, rx=None, tx=None) for _ in self.trx]
+        self.unobs_seen = set()
+        self._unobs = set()
         self.name2idx = {str(t): i for i, t in enumerate(self.trx)}
         self.sock2 = {}
         for i, t in enumerate(self.trx):
@@ -173,14 +177,71 @@ class Sim:
     def _opt(x):
         return [] if x is None else [x]
 
+    # The projection reads the application's state.  Public attributes are part of what the rest of
+    # the toolkit uses; the underscore-prefixed ones (tuned frequencies, header version, the queue) are
+    # a maintainer's to rename or re-represent.  A component that cannot be read is reported as
+    # unobservable ("unobs") and the trace specification does not compare it - what the property
+    # is about stays visible on the wire (replies, forwarded bursts, ports).  Values handed to the
+    # generators (header version, tuning) then come from a shadow kept from the replies seen.
+    def _try(self, field, fn, default):
+        try:
+            return fn()
+        except (AttributeError, TypeError, KeyError, IndexError, ValueError):
+            self._unobs.add(field)
+            return default
+
+    def ver(self, t):
+        """Header version of transceiver t's data link (0-based t)."""
+        d = self.trx[t].data_if
+        for name in ("_hdr_ver", "hdr_ver"):
+            v = getattr(d, name, None)
+            if isinstance(v, int) and not isinstance(v, bool):
+                return v
+        return self.shadow[t]["ver"]
+
+    def tuned(self, t):
+        """(rx, tx) in Hz the transceiver was last tuned to (None: never)."""
+        trx = self.trx[t]
+        if hasattr(trx, "_rx_freq") and hasattr(trx, "_tx_freq"):
+            return trx._rx_freq, trx._tx_freq
+        return self.shadow[t]["rx"], self.shadow[t]["tx"]
+
+    def _queue(self, trx):
+        q = trx._tx_queue
+        return [[m.fn, m.tn] for m in list(q)]
+
+    def queue(self, t):
+        """[[fn, tn], ...] pending on transceiver t, or None when not observable."""
+        try:
+            return self._queue(self.trx[t])
+        except (AttributeError, TypeError):
+            return None
+
+    def _rxtx(self, trx, which):
+        if getattr(trx, "fh") is None:
+            # not hopping: the public accessor answers with the tuned frequency
+            return self._opt(trx.get_rx_freq(0) if which == "rx" else trx.get_tx_freq(0))
+        return self._opt(getattr(trx, "_rx_freq" if which == "rx" else "_tx_freq"))
+
+    def _ver_strict(self, trx):
+        d = trx.data_if
+        for name in ("_hdr_ver", "hdr_ver"):
+            v = getattr(d, name, None)
+            if isinstance(v, int) and not isinstance(v, bool):
+                return v
+        raise AttributeError("header version")
+
     def proj(self):
         out = []
+        self._unobs = set()
+        T = self._try
         for t in self.trx:
             fh = []
             if t.fh is not None:
                 fh = [dict(hsn=t.fh.hsn, maio=t.fh.maio, ma=[[a, b] for (a, b) in t.fh.ma])]
-            out.append(dict(run=bool(t.running), rx=self._opt(t._rx_freq), tx=self._opt(t._tx_freq), fh=fh,
-                            ver=t.data_if._hdr_ver, q=[[m.fn, m.tn] for m in t._tx_queue],
+            out.append(dict(run=bool(t.running),
+                            rx=T("rx", lambda: self._rxtx(t, "rx"), []), tx=T("tx", lambda: self._rxtx(t, "tx"), []), fh=fh,
+                            ver=T("ver", lambda: self._ver_strict(t), 0), q=T("q", lambda: self._queue(t), []),
                             muted=bool(t.rf_muted), ta=t.ta, att=t.tx_att_base, nompwr=t.tx_power_base,
                             frssi=dict(on=bool(t.fake_rssi_enabled), base=t.rssi_base, thr=t.rssi_rand_threshold),
                             toa=dict(base=t.toa256_base, thr=t.toa256_rand_threshold),
@@ -189,8 +250,10 @@ class Sim:
                             delay=t.ctrl_if.rsp_delay_ms))
         g = self.app.clck_gen
         links = [i + 1 for i, t in enumerate(self.trx) if t.clck_gen is not None and t.clck_if in g.clck_links]
-        return dict(trx=out, clk=dict(run=bool(g.running), links=links,
-                                      src=getattr(g, "clck_src", 0) if g.running else 0))
+        self.unobs_seen |= self._unobs
+        return dict(trx=out, unobs=sorted(self._unobs),
+                    clk=dict(run=bool(g.running), links=links,
+                             src=getattr(g, "clck_src", 0) if g.running else 0))
 
     # ---------------------------------------------------------------- events
     def _outs(self):
@@ -212,6 +275,18 @@ class Sim:
             exc = type(e).__name__
         trx.ctrl_if.sock.inbox.clear()
         outs = self._outs()
+        for o in outs:                      # shadow of what the replies say (see ver() / tuned())
+            if o["kind"] == "ctrl" and o["t"] == t + 1:
+                w = bytes(o["raw"]).rstrip(b"\0").split(b" ")
+                try:
+                    if w[:2] == [b"RSP", b"SETFORMAT"] and len(w) == 4 and w[2] == w[3]:
+                        self.shadow[t]["ver"] = int(w[2])
+                    elif w[:3] == [b"RSP", b"RXTUNE", b"0"] and len(w) == 4:
+                        self.shadow[t]["rx"] = int(w[3]) * 1000
+                    elif w[:3] == [b"RSP", b"TXTUNE", b"0"] and len(w) == 4:
+                        self.shadow[t]["tx"] = int(w[3]) * 1000
+                except ValueError:
+                    pass
         return dict(e="cmd", t=t + 1, raw=list(raw), rport=remote[1], exc=exc, outs=outs,
                     slept=[int(round(s * 1000)) for s in self.time.slept])
 
@@ -248,7 +323,8 @@ class Sim:
             exc = type(e).__name__
         stales = []
         other = []
-        for lvl, msg in self.cap.records:
+        sunobs = False
+        for lvl, msg, src in self.cap.records:
             m = _STALE.match(msg)
             if m:
                 desc = m.group(3)
@@ -256,6 +332,19 @@ class Sim:
                 mt = re.search(r"\btn=(\d+)", desc)
                 stales.append(dict(t=self.name2idx.get(m.group(1), -1) + 1, tick=int(m.group(2)),
                                    fn=int(mf.group(1)) if mf else -1, tn=int(mt.group(1)) if mt else -1))
-            else:
-                other.append(msg[:120])
-        return dict(e="tick", fn=fn, exc=exc, outs=self._outs(), stales=stales, logs=other)
+                continue
+            if lvl >= logging.WARNING and src == "transceiver.py":
+                # (warnings from other files - the send path refusing to encode, say - are no reports about
+                # queued bursts) the wording of the report is the maintainer's: any warning of a tick that names a
+                # transceiver and a burst (fn=, tn= of its header description) is a report about that
+                # burst; a warning that cannot be read this way makes the reports of this tick
+                # unobservable (the specification then does not judge them)
+                mn = re.match(r"^\((.+?)\)", msg)
+                fns = re.findall(r"\bfn=(\d+)", msg)
+                tns = re.findall(r"\btn=(\d+)", msg)
+                if mn and mn.group(1) in self.name2idx and fns and tns:
+                    stales.append(dict(t=self.name2idx[mn.group(1)] + 1, tick=fn, fn=int(fns[-1]), tn=int(tns[-1])))
+                    continue
+                sunobs = True
+            other.append(msg[:120])
+        return dict(e="tick", fn=fn, exc=exc, outs=self._outs(), stales=stales, sunobs=sunobs, logs=other)
